@@ -11,6 +11,7 @@ import FgaVerif.Model.CstParse
 import FgaVerif.Model.ModFile
 import FgaVerif.Model.PGraph
 import FgaVerif.Model.WGraph
+import FgaVerif.Model.WAssign
 import FgaVerif.Spec.WeightsSem
 import FgaVerif.Gen.Atn
 import FgaVerif.Model.Conform
@@ -236,6 +237,34 @@ def opWSpec (m : Sexp) (grouped : Bool) : String :=
         "(ok" ++ String.join (vis.map fun n =>
           s!" ({Sexp.quote n.name} {wmapS (Spec.Weights.stateGet st n.name)} ({" ".intercalate ((Spec.Weights.wildTargets g n.name).map Sexp.quote)}))") ++ ")"
 
+/-- the port of `AssignWeights` (Model/WAssign.lean), depth-first search started from `order`
+    (canonical names); answer: error class, or weights and wildcards of every relation/operator node and
+    of each of its edges -/
+def opWAssign (m : Sexp) (order : List Sexp) : String :=
+  match Codec.decModel m with
+  | none => "bad-op"
+  | some mdl =>
+    match WGraph.build mdl with
+    | .error _ => "(reject builder)"
+    | .ok g =>
+      let names := opNames g
+      let nm (ul : String) : String := ((names.find? (·.1 == ul)).map (·.2)).getD ul
+      let inv (c : String) : String := ((names.find? (·.2 == c)).map (·.1)).getD c
+      let ord := order.filterMap (fun x => match x with | .str s => some (inv s) | .atom s => some (inv s) | _ => none)
+      match WAssign.assignWeights g ord with
+      | .error .modelCycle => "(err model-cycle)"
+      | .error .tupleCycle => "(err tuple-cycle)"
+      | .error .invalidModel => "(err invalid-model)"
+      | .error .fuel => "(err fuel)"
+      | .ok st =>
+        let vis := g.nodes.filter (fun n => n.ntype == .typeAndRelation || n.ntype == .operator)
+        let nodes := insertionSort (fun (a b : String × WGraph.WNode) => a.1 ≤ b.1) (vis.map fun n => (nm n.uniqueLabel, n))
+        let wilds (ws : List String) : String := " ".intercalate ((insertionSort (fun (a b : String) => a ≤ b) ws).map Sexp.quote)
+        "(ok" ++ String.join (nodes.map fun (c, n) =>
+          s!" (n {Sexp.quote c} {wmapS (WAssign.aget n.uniqueLabel st.nodeW)} ({wilds (WAssign.aget n.uniqueLabel st.nodeWild)}))" ++
+          String.join ((List.range (WGraph.edgesOf g n.uniqueLabel).length).map fun i =>
+            s!" (e {Sexp.quote c} {i} {wmapS (WAssign.aget (n.uniqueLabel, i) st.edgeW)} ({wilds (WAssign.aget (n.uniqueLabel, i) st.edgeWild)}))")) ++ ")"
+
 def opAtnTable (which : String) : String :=
   let t : Option (List String) := match which with
     | "parser-rules" => some Gen.Atn.goParserRules
@@ -271,6 +300,7 @@ def step (line : String) : String :=
   | some (.list [.atom "wstruct", m]) => opWStruct m
   | some (.list [.atom "wspec", m]) => opWSpec m true
   | some (.list [.atom "wspec-edges", m]) => opWSpec m false
+  | some (.list [.atom "wassign", m, .list order]) => opWAssign m order
   | some (.list [.atom "modpath", .str e]) => opModPath e
   | some (.list [.atom "modfile", sn, cn]) => opModFile sn cn
   | some (.list [.atom "clean", .str text]) => s!"(ok {Sexp.quote (String.ofList (Clean.clean text.toList))})"
